@@ -262,13 +262,23 @@ def post_cases(draw, tier="quick"):
             "pmean": draw(gen.vec(n, -1, 1)), "pvar": draw(st.lists(gen.logpos(-1, 0.5), min_size=n, max_size=n)),
             "PG": draw(gen.mat(n, n, -0.5, 0.5)),
             "second": draw(st.sampled_from([False, True, "user"])), "data2": draw(gen.vec(m, -2, 2)),
-            "x": draw(gen.vec(n, -1, 1)), "fd": draw(st.booleans())}
+            "x": draw(gen.vec(n, -1, 1)), "fd": draw(st.booleans()), "sparse_mutated": draw(st.booleans())}
 
 
 def build_post(c):
     import cuqi
     mc = c["model"]
     model, dom, ran, F = c12.build(mc)
+    mutate = None
+    if mc["kind"] == "lin_matrix" and c.get("sparse_mutated"):
+        # the model is built on the user's sparse matrix, which the user then updates in place (re-calibration): from then on
+        # log-density AND gradient belong to the matrix as it is now
+        import scipy.sparse as sp
+        Bs = sp.csr_matrix(A(mc["B"]) / 1.7)
+        model = cuqi.model.LinearModel(Bs, range_geometry=ran, domain_geometry=dom)
+
+        def mutate():
+            Bs.data *= 1.7
     m, n = c12.par_dim(mc["ran"]), c12.par_dim(mc["dom"])
     nv = A(c["nvar"])
     S = gen.spd_from(c["NG"], 0.0) + np.diag(nv)
@@ -328,6 +338,8 @@ def build_post(c):
             data2 = A(c["data2"]) if kind != "lognormal" else np.exp(A(c["data2"]))
             J = cuqi.distribution.JointDistribution(y, y2, prior)
             objs["multi"] = J(y=data, y2=data2)
+    if mutate is not None:
+        mutate()
     return objs, argname
 
 
@@ -349,6 +361,21 @@ def run_post(c, rec):
             require(type(obj).__name__ == "MultipleLikelihoodPosterior", "harness: expected MultipleLikelihoodPosterior", got=type(obj).__name__)
         res = judge(name, obj.gradient, obj.logd, x, rec)
         rec.count(f"{name}:{res}")
+        if res == "checked" and mc["dom"]["kind"] not in ("user", "usermapped"):
+            # the evaluation point handed over as a geometry-carrying array - parameters or function values - whose geometry is an
+            # equal geometry built separately (as after a deep copy of the model): the same gradient
+            twin = c12.make_geom(mc["dom"])
+            g_plain = np.asarray(obj.gradient(x.copy()), dtype=float).reshape(-1)
+            for label, arr in (("parameters", cuqi.array.CUQIarray(x.copy(), is_par=True, geometry=twin)),
+                               ("function values", cuqi.array.CUQIarray(c12.ref_par2fun(mc["dom"], x), is_par=False, geometry=twin))):
+                r_, g_arr = refuses(lambda: obj.gradient(arr))
+                if r_ or g_arr is None:
+                    rec.count("gradient_refused_for_cuqiarray:" + label)
+                    continue
+                g_arr = np.asarray(g_arr, dtype=float).reshape(-1)
+                require(g_arr.shape == g_plain.shape and float(np.max(np.abs(g_arr - g_plain))) <= 1e-8 * (1 + float(np.max(np.abs(g_plain)))),
+                        f"{name}: the gradient at a CUQIarray of {label} (equal geometry built separately) differs from the gradient at the same point "
+                        "given as a plain vector", as_array=g_arr, plain=g_plain)
         if c["fd"] and name != "multi":
             refused, _ = refuses(lambda: obj.enable_FD())
             if not refused:
